@@ -19,6 +19,49 @@ CLAIMED["C15"] = {
 CLAIMED["C14"] = {
     "category": "proof",
     "text": "Authenticator.can_do is verified exact against the property: allowed iff authentication is disabled, or the action is not configured, or some role is in both the action's role set and the token's roles, where a missing/empty token or a token without a roles entry stands for the anonymous default role and an authenticated token with an EMPTY role set has no role at all.",
-    "note": "Work in progress for this property: the enforcement sites (save check before any write/broadcast on both backends, query check before a subscription starts, output validator on stored and live delivery) and role storage round trip are being added as typestate obligations on add_event/subscribe/notify; until then this check covers the decision function only. evaluate_target is treated as an arbitrary boolean.",
+    "note": "Also proved: DBStorage.add_event INSERT/broadcast/return require 'save authorized for this event'; BaseStorage.subscribe starts a subscription only after the query check; BaseSubscription.notify applies the output validator to live pushes (after fix). Not covered yet: LMDB add_event, the stored-query loops' output validator, role storage round trip. evaluate_target is treated as an arbitrary boolean.",
 }
+
+_LMDB_PENDING = " The LMDB backend (storage/kv.py) is not under contract yet for this property: its clauses are listed as not covered until those units are added."
+CLAIMED["C03"] = {
+    "category": "proof",
+    "text": "validators.is_canonical is verified EXACT against NIP-01 canonical form over arbitrary JSON-typed payload fields (integer created_at/kind, string content, 64/128-char lower-case hex pubkey/sig, tags = arrays of non-empty arrays of strings or plain integers, id equal to the hash of the event's own fields); is_signed returns normally only if is_canonical and Event.verify(); the validator pipeline runs every configured validator on the submitted event; in DBStorage.add_event the INSERT, both broadcasts and the normal return are guarded by typestate obligations 'validated(this event)' on every path.",
+    "note": "Assumed: SHA-256 / BIP-340 / delegation signature checks are the uninterpreted predicate Event.verify() (aionostr source read, coincurve trusted); Event.compute_id is an uninterpreted function returning a lowercase 64-hex digest; the validator list contains is_signed (configuration)." + _LMDB_PENDING + " cli bulk load and add_service_event reach storage only through add_event (by inspection, not yet an obligation).",
+}
+CLAIMED["C06"] = {
+    "category": "proof",
+    "text": "web.start_client: per-iteration postconditions over every path of the handler loop -- an EVENT message is answered by exactly one OK (at most one when the connection is being closed), the OK flag and id equal what storage.add_event returned, false when it raised or when rate-limited, add_event is called at most once per message, no OK for other commands. DBStorage.add_event: returned flag == 'row newly inserted', a duplicate leaves every row as it was (outside one listed finding class), broadcast exactly once iff newly stored and only after commit, every exceptional exit leaves the store unchanged (rollback) and broadcasts nothing.",
+    "note": "Assumed: SQL model of contracts/sqlmodel.py (INSERT OR IGNORE semantics, rollback on exception), websocket/json models." + _LMDB_PENDING + " 'A valid event is never refused except as a duplicate' is not stated as an obligation yet (IndexError/ValueError edges in pre_save/process_tags are allowed by the contracts).",
+}
+CLAIMED["C07"] = {
+    "category": "proof",
+    "text": "Code-side atomicity obligations for the SQL backend: every statement issued while applying an event runs on the connection of the single `async with self.db.begin()` block (typestate obligation at every conn.execute), no nested or second transaction (delete_event requires 'no transaction open'), an exception raised by any statement -- every execute has a failing edge -- leaves the block through its exceptional exit so that the store equals its state at entry, both broadcasts require 'transaction closed', the add slot is released on every exit.",
+    "note": "The crash/atomic-commit behaviour of SQLite/PostgreSQL itself is ASSUMED (one engine transaction is atomic and durable); no deductive tool here reaches into the engine." + _LMDB_PENDING,
+}
+CLAIMED["C08"] = {
+    "category": "proof",
+    "text": "DBStorage.process_tags is verified in both directions over an arbitrary row r0 (skolemised forall): a row disappears only if the event is kind 5, the row's pubkey equals the deleter's and its id is referenced by an e tag; and every such row does disappear; no row is added. post_save and add_event carry the frame to the whole admission path.",
+    "note": "SQL model assumed (DELETE removes exactly the rows satisfying WHERE)." + _LMDB_PENDING + " Kind-5 deletion is not restricted to OLDER events on the SQL backend (the property allows 'at least all older').",
+}
+CLAIMED["C09"] = {
+    "category": "proof",
+    "text": "DBStorage.pre_save: a row is superseded only if the new event is (parameterised) replaceable and the row has the same pubkey, the same kind, a strictly smaller created_at and -- for kinds 30000-39999 -- the same d-value, where the d-value is specified independently as 'second item of the FIRST d tag, empty if bare or absent' and related to the code's list comprehension by an order-preserving rank function; regular events touch nothing. post_save: kinds 0/3 remove only older same-author same-kind rows. Completeness (every older version is removed) is stated and is a listed known finding.",
+    "note": "SQL model assumed; stored rows and the new event have non-empty tags (store invariant established by is_canonical)." + _LMDB_PENDING,
+}
+CLAIMED["C13"] = {
+    "category": "proof",
+    "text": "BaseStorage.subscribe: every normal return either started the new subscription (registered under its id, marked started) or put exactly one (sub_id, None) EOSE sentinel and registered nothing; refusals raise StorageError/AuthenticationError and leave the connection's other subscriptions intact; len(subs) <= subscription_limit is preserved; the old subscription under a reused id is cancelled; other ids and other connections untouched (skolemised). BaseStorage.unsubscribe: removes exactly that id, cancels its task, never raises; None drops the connection. web.start_client: a refused REQ is answered by exactly one NOTICE, an accepted one by none, every REQ reaches storage unless rate-limited.",
+    "note": "Not covered yet: the query tasks (run_query) putting the sentinel exactly once on every path, send_subscriptions turning it into one EOSE; interleavings (replacement while the query task runs) are outside this technique (assumption A4).",
+}
+CLAIMED["C19"] = {
+    "category": "proof",
+    "text": "web.start_client: no exception escapes the handler on any of its ~300 paths (every implicit exception edge of JSON indexing, every failing dependency call is routed through the handler ladder), the loop continues only without having closed the connection, and on every exit unsubscribe(client) ran exactly once, the limiter cleanup ran, and the sender task (if created) was cancelled and awaited with CancelledError contained. validate_message is exact. subscribe/unsubscribe error mapping as in C13.",
+    "note": "Not covered: 'never wedges' (the doubling throttle is a liveness matter), effects on other connections, cancellation delivered at an arbitrary await (A4). rate_limiter is assumed non-None (get_rate_limiter always returns an object).",
+}
+CLAIMED["C05"] = {
+    "category": "proof",
+    "text": "notify_all_connected creates exactly one notify(event) task per subscription yielded by the registry iteration and none for anything else; BaseSubscription.notify pushes (own sub_id, event) exactly once iff check_event matches and the output validator allows; subscribe/unsubscribe maintain the registry exactly (see C13); add_event broadcasts only newly stored events.",
+    "note": "Not covered yet: the matching function check_event itself against NIP-01 and against the stored-query predicate (planned), interleavings of concurrent connections (outside this technique, A4); that dict.values() yields every value once is assumed.",
+}
+
 NOT_APPLICABLE = {}
